@@ -349,8 +349,34 @@ def run(ctx):
     sloop = C.enclosing_loop(starts[0])
     plist = U(sloop.iter) if isinstance(sloop, ast.For) else "?"
     # every path from the start loop to the end of the with-body passes a join loop over the same list
+    def covers_workers(l):
+        """the loop runs over the worker list itself, or over a local that - on every path to the loop - holds all workers or
+        those of them a poll has just seen alive (the others are finished and were reaped by is_alive())"""
+        if U(l.iter) == plist:
+            return True
+        if not isinstance(l.iter, ast.Name):
+            return False
+        try:
+            ds_ = C.flow_of(f).reaching(l, l.iter.id)
+        except Exception:
+            return False
+        if not ds_:
+            return False
+        for d_ in ds_:
+            v_ = getattr(d_, "value", None)
+            if d_.kind != "assign" or v_ is None:
+                return False
+            t_ = U(v_)
+            if t_ in (plist, "list(%s)" % plist, "%s[:]" % plist, "%s.copy()" % plist, "tuple(%s)" % plist):
+                continue
+            if isinstance(v_, (ast.ListComp, ast.GeneratorExp)) and len(v_.generators) == 1 and U(v_.generators[0].iter) == plist \
+                    and U(v_.elt) == U(v_.generators[0].target) and len(v_.generators[0].ifs) == 1 \
+                    and U(v_.generators[0].ifs[0]) == "%s.is_alive()" % U(v_.generators[0].target):
+                continue
+            return False
+        return True
     jloops = [C.enclosing_loop(j) for j in joins]
-    jloops = [l for l in jloops if isinstance(l, ast.For) and U(l.iter) == plist and C.in_subtree(l, w)]
+    jloops = [l for l in jloops if isinstance(l, ast.For) and covers_workers(l) and C.in_subtree(l, w)]
     last = w.body[-1]
     reach_without_join = cfg.reachable(sloop, last, avoid=jloops, within=None) if jloops else True
     ctx.check(bool(jloops) and not reach_without_join, "R3", "all paths from start() to the end of the block join every worker",
@@ -367,9 +393,9 @@ def run(ctx):
     okk = False
     for k in kills:
         l = C.enclosing_loop(k)
-        if isinstance(l, ast.For) and U(l.iter) == plist and (any(n in l.body or C.in_subtree(l, p) for p in polls for n in [l])
+        if isinstance(l, ast.For) and covers_workers(l) and (any(n in l.body or C.in_subtree(l, p) for p in polls for n in [l])
                                                                 or any(cfg.dominates(s_, l) for s_ in sets)):
-            alive = any(p2 and "is_alive()" in U(e) for e, p2 in C.facts_at(k, stop=l))
+            alive = any(p2 and "is_alive()" in U(e) for e, p2 in C.facts_at(k, stop=l)) or (U(l.iter) != plist)   # (a list of live workers)
             j = [s for s in l.body if U(s) == "%s.join()" % U(l.target)]
             order = bool(j) and cfg.reachable(k, j[0], within=l) and not cfg.reachable(j[0], k, within=l)
             # (on the time-out path: the exhaustion branch of `while <clock test>: .. else:`, or after timed_out was set)
